@@ -119,6 +119,13 @@ class CWorld(object):
         for name, kind, en in self.sources:
             ops.append(("dis", name) if en else ("en", name))
         o = self.obj
+        # composite: disable a source, change the values, enable it again (a disabled source must follow value changes too)
+        if self.sources and self.sources[0][2]:
+            _chg = {"indexed": ("data", "alt"), "xy": ("y", "alt"), "hist": ("fill", 1), "indexed-model": ("pars", 1), "xy-model": ("pars", 1), "hist-model": ("pars", 1)}[o]
+            ops.append(("around", self.sources[0][0], _chg))
+            if o == "xy":
+                ops.append(("around", self.sources[0][0], ("data", "alt")))
+                ops.append(("around", self.sources[0][0], ("x", "alt")))
         if o == "indexed":
             ops += [("data", "alt"), ("data", "mixed")]
         elif o == "xy":
@@ -135,6 +142,11 @@ class CWorld(object):
         c, val, k = self.c, self.val, op[0]
         with warnings.catch_warnings():
             warnings.simplefilter("ignore")
+            if k == "around":
+                self.apply(("dis", op[1]))
+                self.apply(tuple(op[2]))
+                self.apply(("en", op[1]))
+                return
             if k == "add":
                 meth, kw = ref.kind_call(op[1], val, axis_as=("int" if len(op) > 3 else "str"))
                 kw.pop("reference")
@@ -393,7 +405,7 @@ def run_job(spec):
             res.nontriv((obj, v, seq))
         res.facts["seq:" + obj] += 1
         for op in seq:
-            res.facts["op:%s:%s" % (obj, op[0])] += 1
+            res.facts["op:%s:%s" % (obj, op[0] if op[0] != "around" else op[2][0])] += 1
     res.sample(dict(object=obj, valuation=v, shard=shard, sequences=len(seqs), example=[list(o) for o in (seqs[len(seqs) // 2] if seqs else ())]))
     return res.as_dict()
 
